@@ -123,6 +123,8 @@ type Scripts struct {
 	// of an immediate drop.
 	ConnLostSilence bool
 	Default         model.Outcome
+	// Decorate: error answers carry warnings, a custom payload or a tracing id, depending on the token.
+	Decorate bool
 }
 
 func NewScripts() *Scripts { return &Scripts{m: map[string][]model.Outcome{}, Default: model.Rows} }
@@ -142,6 +144,18 @@ func (s *Scripts) Func() func(*fakecass.Arrival) fakecass.Outcome {
 			return fakecass.Outcome{} // default: Prepared
 		}
 		fo := OutcomeFor(o, a.Token, a.Header.Version)
+		if s.Decorate && fo.Msg != nil && fo.RawFrame == nil && a.Header.Version >= primitive.ProtocolVersion4 && len(a.Token) > 0 {
+			if _, isErr := fo.Msg.(message.Error); isErr {
+				switch a.Token[len(a.Token)-1] % 4 {
+				case 1:
+					fo.Warnings = []string{"a warning in front of the error"}
+				case 2:
+					fo.Payload = map[string][]byte{"k": []byte("v")}
+				case 3:
+					fo.Tracing = true
+				}
+			}
+		}
 		if o == model.ConnLost && s.ConnLostSilence {
 			fo = fakecass.Outcome{Name: string(model.ConnLost)}
 			s.mu.Lock()
@@ -341,11 +355,48 @@ func DecodeReply(comp string, f *rawcql.Frame) ReplyInfo {
 	if err != nil {
 		ri.Err = err
 		// an ERROR frame the reference codec refuses (unknown error code, write type CAS): code and message read by hand
-		if f.OpCode == primitive.OpCodeError && f.Flags&^primitive.HeaderFlagCompressed == 0 {
+		if f.OpCode == primitive.OpCodeError {
 			b := f.Body
 			if f.Flags.Contains(primitive.HeaderFlagCompressed) {
 				if pb, derr := fakecass.Decompress(comp, b); derr == nil {
 					b = pb
+				}
+			}
+			// what may precede the message: tracing id, warnings, custom payload (in this order)
+			if f.Flags.Contains(primitive.HeaderFlagTracing) && len(b) >= 16 {
+				b = b[16:]
+			}
+			if f.Flags.Contains(primitive.HeaderFlagWarning) && len(b) >= 2 {
+				n := int(b[0])<<8 | int(b[1])
+				b = b[2:]
+				for i := 0; i < n && len(b) >= 2; i++ {
+					l := int(b[0])<<8 | int(b[1])
+					if 2+l > len(b) {
+						b = nil
+						break
+					}
+					b = b[2+l:]
+				}
+			}
+			if f.Flags.Contains(primitive.HeaderFlagCustomPayload) && len(b) >= 2 {
+				n := int(b[0])<<8 | int(b[1])
+				b = b[2:]
+				for i := 0; i < n && len(b) >= 2; i++ {
+					l := int(b[0])<<8 | int(b[1])
+					if 2+l+4 > len(b) {
+						b = nil
+						break
+					}
+					b = b[2+l:]
+					vl := int(int32(uint32(b[0])<<24 | uint32(b[1])<<16 | uint32(b[2])<<8 | uint32(b[3])))
+					b = b[4:]
+					if vl > 0 {
+						if vl > len(b) {
+							b = nil
+							break
+						}
+						b = b[vl:]
+					}
 				}
 			}
 			if len(b) >= 6 {
